@@ -667,6 +667,191 @@ def check_recursion(chk, F):
     chk.floor(R, "call-graph size", len(g), 1500)
 
 
+# ---- R11.14 translations whose context error is turned into a panic ------------------------------------------------------
+
+def _translation_sites(F):
+    """[(function, translate fn, targs, [panicking consumer])] over the MIR of non-test code"""
+    def calls(par):
+        out = []
+        for q, b in F.bodies.items():
+            if q == par or q.startswith(par + "::{closure"):
+                mir = b.get("mir")
+                for blk in (mir or {}).get("blocks", []):
+                    t = blk.get("term") or {}
+                    fn = (t.get("func") or {}).get("fn") if t.get("t") == "call" else None
+                    if fn:
+                        out.append((fn["def"], fn.get("targs") or [], t.get("sp")))
+        return out
+    sites = {}
+    for q, b in F.bodies.items():
+        if "::tests::" in q or "::test::" in q:
+            continue
+        mir = b.get("mir")
+        for blk in (mir or {}).get("blocks", []):
+            t = blk.get("term") or {}
+            fn = (t.get("func") or {}).get("fn") if t.get("t") == "call" else None
+            if fn and (fn["def"].endswith("::translate_pk") or fn["def"].endswith("::translate_pk_ctx")):
+                sites[(q.split("::{closure")[0], fn["def"], tuple(fn.get("targs") or []))] = t.get("sp")
+    out = []
+    for (par, d, targs), sp in sorted(sites.items()):
+        pan = [(cd, sp2) for cd, ta, sp2 in calls(par)
+               if cd.endswith("::expect_translator_err") or
+               (cd in ("std::result::Result::<T, E>::expect", "std::result::Result::<T, E>::unwrap") and ta and
+                any(x in ta[0] for x in ("Descriptor<", "Miniscript<", "Policy<", "TapTree<")))]
+        out.append((par, d, targs, pan, sp))
+    return out
+
+
+def check_translator_expects(chk, F, rid="R11.14"):
+    from ..builtins import deref, PyMap
+    from . import c10, c16
+    chk.rule(rid, "a key translation re-runs the context checks on the translated keys and returns their failure as "
+                  "TranslateErr::OuterError; wherever the library turns that failure into a panic (expect_translator_err, "
+                  "expect / unwrap on the translation's result) the translator cannot cause one: either the target context is "
+                  "NoChecks, or - decided by evaluating the translator's `pk` on compressed, uncompressed, x-only and extended "
+                  "keys - the key it returns is never uncompressed or x-only unless the key it was given is (the only key "
+                  "attributes the context checks read); every such site in the MIR is enumerated and must be decided")
+    DPK, DDK = c10.DPK, "descriptor::key::DefiniteDescriptorKey"
+    KE = "descriptor::wallet_policy::key_expression::KeyExpression"
+    sites = _translation_sites(F)
+    pans = [x for x in sites if x[3]]
+    chk.floor(rid, "translation call sites", len(sites), 20)
+    chk.floor(rid, "sites that panic on a context error", len(pans), 6)
+    m = c10.key_machine(F)
+    c16.derivation_hooks(m)
+    c10.string_key_hooks(m)
+    h = m.hooks
+    h["bitcoin::secp256k1::Secp256k1::<C>::verification_only"] = lambda m_, a, c: Term("secp")
+    for nm in ("descriptor::key::DescriptorPublicKey::master_fingerprint", "descriptor::key::DefiniteDescriptorKey::master_fingerprint"):
+        h[nm] = lambda m_, a, c: Term("fingerprint")
+    for nm in ("<bitcoin::XOnlyPublicKey as ToPublicKey>::to_public_key", "<bitcoin::secp256k1::XOnlyPublicKey as ToPublicKey>::to_public_key"):
+        h[nm] = lambda m_, a, c: ("pk", "02" + deref(a[0])[1])
+    # bitcoin::PublicKey in the text model of c10.key_machine: ("pk", hex) - 65 bytes of hex is the uncompressed form
+    h["<bitcoin::PublicKey as MiniscriptKey>::is_uncompressed"] = \
+        lambda m_, a, c: (len(deref(a[0])[1]) == 130) if isinstance(deref(a[0]), tuple) else (not deref(deref(a[0]).fields["compressed"]))
+    fs = [it["path"] for i in F.impls if i["trait"] == "std::str::FromStr" and i["self_adt"] == DPK
+          for it in i["items"] if it["name"] == "from_str"]
+    if len(fs) != 1:
+        chk.fail(rid, "anchor", "FromStr for DescriptorPublicKey not found", kind="unanalysable")
+        return
+
+    def dpk(t):
+        r = m.call_path(fs[0], [t])
+        if r.variant != "Ok":
+            raise Unsupported("key text %s" % t)
+        return r.fields["0"]
+
+    def attrs(v):
+        """(is_uncompressed, is_x_only_key) of a key value, through the MiniscriptKey impl of its type"""
+        v = deref(v)
+        if isinstance(v, str):
+            return (False, False)
+        if isinstance(v, tuple) and v and v[0] == "pk":
+            return (len(v[1]) == 130, False)
+        if isinstance(v, tuple) and v and v[0] == "xonly":
+            return (False, True)
+        if isinstance(v, Adt) and v.path == "bitcoin::PublicKey":
+            return (not deref(v.fields["compressed"]), False)
+        if isinstance(v, Adt):
+            out = []
+            for nm in ("is_uncompressed", "is_x_only_key"):
+                ps = [it["path"] for i in F.impls if (i["trait"] or "").endswith("MiniscriptKey") and i["self_adt"] == v.path
+                      for it in i["items"] if it["name"] == nm and it["path"] in F.bodies]
+                if ps:
+                    out.append(bool(m.call_path(ps[0], [v])))
+                else:
+                    out.append(False)      # the trait's default
+            return tuple(out)
+        raise Unsupported("key value %r" % (v,))
+    SINGLE = [c10.PK33, c10.PK65, c10.XONLY]
+
+    def plan(S, T):
+        """-> [(translator value, input key)] for the translator type T over source keys S"""
+        tname = T.split("::")[-1].split("<")[0]
+        if S == DPK and tname == "ToDefinite":
+            return [((), dpk(t)) for t in SINGLE + [c10.XPUB + "/0"]]
+        if S == DPK and tname == "AtIndex":
+            return [(Adt(T, "AtIndex", {"0": 5}), dpk(t)) for t in SINGLE + [c10.XPUB + "/0/*"]]
+        if S == DPK and tname == "IndexChoser":
+            return [(Adt(T, "IndexChoser", {"0": 0, "1": 2}), dpk(t)) for t in SINGLE + [c10.XPUB + "/<0;1>/*"]]
+        if S == DPK and tname == "KeyMapLookUp":
+            km = Adt("descriptor::key_map::KeyMap", "KeyMap", {"map": PyMap([])})
+            return [(Adt(T, "KeyMapLookUp", {"0": km}), dpk(t)) for t in SINGLE + [c10.XPUB + "/0/*"]]
+        if S == DPK and tname == "WalletPolicyTranslator":
+            ks = [dpk(t) for t in SINGLE + [c10.XPUB + "/<0;1>/*"]]
+            return [(Adt(T, "WalletPolicyTranslator", {"key_info": PyVec([dcopy(k)])}), k) for k in ks]
+        if S == KE and tname == "WalletPolicyTranslator":
+            ke = dpk_to_ke(dpk(c10.XPUB + "/<0;1>/*"))
+            return [(Adt(T, "WalletPolicyTranslator", {"key_info": PyVec([dpk(t)])}), dcopy(ke)) for t in SINGLE + [c10.XPUB + "/<0;1>/*"]]
+        if S == DDK and tname == "KeySourceLookUp":
+            return [(Adt(T, "KeySourceLookUp", {"0": PyMap([]), "1": Term("secp")}), Adt(DDK, "DefiniteDescriptorKey", {"0": dpk(t)}))
+                    for t in SINGLE + [c10.XPUB + "/0"]]
+        return None
+
+    def dpk_to_ke(k):
+        imp = [i for i in F.impls if (i["trait"] or "") == "Translator" and "WalletPolicyTranslator" in (i.get("self_ty") or "")
+               and "Translator<" + DPK + ">" in i["path"]]
+        pkf = [it["path"] for it in imp[0]["items"] if it["name"] == "pk"][0]
+        r = m.call_path(pkf, [Adt("descriptor::wallet_policy::WalletPolicyTranslator", "WalletPolicyTranslator", {"key_info": PyVec([dcopy(k)])}), k])
+        return r.fields["0"]
+    from .. import builtins as B_
+    orig_fmt = B_.fmt_value
+    B_.fmt_value = c10._key_fmt_value(orig_fmt)
+    try:
+        _decide_translation_sites(chk, F, rid, m, pans, plan, attrs)
+    finally:
+        B_.fmt_value = orig_fmt
+
+
+def _decide_translation_sites(chk, F, rid, m, pans, plan, attrs):
+    for par, d, targs, pan, sp in pans:
+        S, T = (targs[0], targs[-1])
+        inst = "%s|%s" % (par.split("::")[-1], T.split("::")[-1].split("<")[0])
+        if d.endswith("translate_pk_ctx") and any(x.endswith("::NoChecks") for x in targs[:-1]):
+            chk.ok(rid)       # the target context checks nothing
+            continue
+        if d.endswith("translate_pk_ctx"):
+            S = None
+        # the source key type: the translator's Translator<S> impl
+        imps = [i for i in F.impls if (i["trait"] or "") == "Translator" and (i.get("self_ty") or "") == T]
+        if S is not None:
+            imps = [i for i in imps if ("Translator<%s>" % S) in i["path"]]
+        if len(imps) != 1:
+            chk.fail(rid, inst + "|impl", "%s turns a context error of the translation at %s into a panic (%s); the Translator impl "
+                     "of %s could not be identified" % (par, sp, pan[0][0].split("::")[-1], T), kind="unanalysable")
+            continue
+        pkf = [it["path"] for it in imps[0]["items"] if it["name"] == "pk"][0]
+        chk.saw(pkf)
+        try:
+            S = imps[0]["path"].split("Translator<", 1)[1].rsplit(">>", 1)[0]
+            cases = plan(S, T)
+            if cases is None:
+                chk.fail(rid, inst + "|unclassified", "%s turns a context error of the translation at %s into a panic (%s) and the "
+                         "translator %s is not one whose key attributes this rule can compute" % (par, sp, pan[0][0].split("::")[-1], T),
+                         where=pan[0][1])
+                continue
+            bad = []
+            done = 0
+            for tv, key in cases:
+                r = m.call_path(pkf, [tv, dcopy(key)])
+                if r.variant != "Ok":
+                    continue
+                done += 1
+                ia, oa = attrs(key), attrs(r.fields["0"])
+                if (oa[0] and not ia[0]) or (oa[1] and not ia[1]):
+                    bad.append("given a key with (uncompressed, x-only) = %r it returns one with %r" % (ia, oa))
+            if not done:
+                chk.fail(rid, inst + "|no-case", "no input makes %s::pk succeed" % T, kind="unanalysable")
+                continue
+            chk.obligation(rid, not bad, inst, "%s panics (%s at %s) if the translation fails a context check, and the translator %s "
+                           "can make it fail: %s" % (par, pan[0][0].split("::")[-1], pan[0][1], T.split("::")[-1], "; ".join(bad[:2])),
+                           where=pan[0][1])
+        except Unsupported as e:
+            chk.fail(rid, inst + "|unanalysable", "unanalysable: %s" % e, where=e.where, kind="unanalysable")
+        except Panic as e:
+            chk.fail(rid, inst, "panic while evaluating %s::pk: %s" % (T, e), where=pan[0][1])
+
+
 def run(chk):
     F = chk.facts()
     chk.explanation = __doc__
@@ -706,3 +891,4 @@ def run(chk):
         chk.guard("R11.12", "scriptsig-elements", c17.check_scriptsig_encoding, chk, F, "R11.12")
         # Satisfaction::satisfy's expect("the same satisfier should manage to complete the template") cannot fire (shared with C17)
         chk.guard("R11.13", "template-completable", c17.check_template_completable, chk, F, "R11.13")
+        chk.guard("R11.14", "translator-expects", check_translator_expects, chk, F)
